@@ -1,7 +1,8 @@
 #!/bin/bash
 # usage: selftest/mutant.sh <patch-file> <property> [tier] [budget_s]
-# Applies a seeded defect to a scratch worktree of /repo (outside /repo and /verif), runs the
-# property's check against it, prints the verdict, and removes the worktree and its build.
+# Applies a seeded defect to a scratch worktree of /repo (outside /repo and /verif), runs the property's check
+# against it from a private snapshot of /verif (so that neither evidence nor replays of the real tree are touched
+# and concurrent edits of /verif cannot disturb the run), prints the verdict, removes everything again.
 set -u
 patch=$(readlink -f "$1"); prop=$2; tier=${3:-quick}; budget=${4:-40}
 wt=$(mktemp -d /tmp/dsim-mut-XXXXXX)
@@ -9,9 +10,14 @@ git -C /repo worktree add -q --detach "$wt" HEAD || exit 2
 cleanup() { git -C /repo worktree remove --force "$wt" 2>/dev/null; rm -rf "$wt"; }
 trap cleanup EXIT
 if ! git -C "$wt" apply "$patch"; then echo "MUTANT $(basename $patch): patch does not apply"; exit 2; fi
-out=$(VERIF_REPO="$wt" VERIF_BUILD="$wt/_vbuild" VERIF_BUDGET_S=$budget /verif/check "$prop" "$tier" 2>&1); rc=$?
-echo "$out" | grep -E "failure class|VIOLATION|BUILD FAILED|error:|runs \(" | cut -c1-400 | head -12
+mkdir -p "$wt/_verif"
+rsync -a --exclude build --exclude .git --exclude replays --exclude seeded /verif/ "$wt/_verif/"
+sed -i "s#/verif/build#$wt/_vbuild#g" "$wt/_verif/Makefile"
+out=$(VERIF_REPO="$wt" VERIF_BUILD="$wt/_vbuild" VERIF_BUDGET_S=$budget "$wt/_verif/check" "$prop" "$tier" 2>&1); rc=$?
+echo "$out" | grep -E "failure class|VIOLATION|KNOWN-FINDING|BUILD FAILED|error:|runs \(" | cut -c1-400 | head -12
+if [ $rc -eq 1 ]; then
+	r=$(echo "$out" | grep -o "replay=[^ ]*" | head -1 | cut -d= -f2)
+	[ -n "$r" ] && [ -f "$r" ] && { echo "--- minimised replay of the first failure class:"; grep -v "^#  " "$r" | head -25; }
+fi
 echo "MUTANT $(basename $patch) property=$prop rc=$rc"
-# the check wrote evidence and replays for the mutant: discard them
-git -C /verif checkout -q -- evidence 2>/dev/null
 exit 0
